@@ -41,12 +41,18 @@ class C16(Prop):
                   "(C16_total). Uniform retention: for every cap, every n >= cap and EVERY position i < n, (#choice sequences retaining i) * n = "
                   "cap * (#choice sequences), the choice sequences being exactly the duplicate-free product of the bounds idx+1 the code requests "
                   "(C16_uniform_retention, C16_counting_functions_count, C16_choice_sequences_*), with the retained set computed by the model's "
-                  "push (C16_retention_runs_model_push). The code as found is refuted on both counts (cap=1,n=2; cap=0). Concurrent: for every "
-                  "schedule, thread count and program, no push panics and every drain reports len = min(count read, cap) and at most len values "
-                  "(C16_concurrent_accounting_except_late_push_partial), consumers exclude each other and while a drain is between its side swap "
-                  "and its count reset use_primary selects the other side (C16_consumers_exclusive_and_side_stable); the late-push pattern breaks per-drain accounting (C16_late_push_refutes).")
-    level_note = ("PARTIAL for the concurrent clause: the statement 'outside the late-push class every drain accounts exactly for the pushes of its "
-                  "window' is NOT proved in Coq; it is evaluated by spec_ok on every replayed schedule (the implementation's own traces) and "
+                  "push (C16_retention_runs_model_push). The code as found is refuted on both counts (cap=1,n=2; cap=0). Concurrent (interleaving "
+                  "machine, one step per yield site; every schedule, thread count and program): outside the late-push class (no 1606 step retires a "
+                  "side with a push in flight on it) every completed drain read count n = number of pushes that STARTED (1601) on its side since that "
+                  "side's previous count reset, len = min(n, cap), yielded only values of those pushes, exactly the first ones in fetch_add order if n <= cap, "
+                  "sample rate 1 if n <= cap else cap/n (C16_concurrent_accounting_except_late_push; C16_concurrent_accounting_outside_known_class for the "
+                  "run a replayed case denotes). Unconditionally: count = fetch_adds since the last reset, no push panics, len = min(count read, cap), "
+                  "returned drains are logged, consumers exclude each other and use_primary selects the other side while a drain is between swap and reset. "
+                  "The late-push pattern breaks per-drain accounting (C16_late_push_refutes).")
+    level_note = ("The concurrent theorem is stated on the machine's ghost ledgers (per side: values started at 1601 / fetch_added at 1602 since the "
+                  "side's last reset), not on the trace walker spec_ok uses: 'spec_ok holds on every model run outside the known class' for threaded "
+                  "cases is NOT proved (it needs a refinement between the walker's trace windows and the ghost ledgers); spec_ok is evaluated on every "
+                  "replayed schedule instead (the implementation's own traces) and "
                   "held on all of them, failing only inside the open known class C16-late-push. Uniformity is conditional on rand's random_range "
                   "being uniform on the requested range (trusted; the hook only checks the range requested); under concurrency uniformity is not "
                   "claimed (stores of concurrent pushes may land out of idx order). SC interleaving, Relaxed/Acquire/Release not modelled. "
